@@ -518,3 +518,100 @@ def accumulation(prog, f, its, root):
     return None
 
 
+
+
+# ------------------------------------------------------------------------------------------
+# "for every element, cmp(element parts) holds" established at a block
+# ------------------------------------------------------------------------------------------
+NEG = {"Eq": "Ne", "Ne": "Eq", "Lt": "Ge", "Ge": "Lt", "Le": "Gt", "Gt": "Le"}
+FLIP = {"Eq": "Eq", "Ne": "Ne", "Lt": "Gt", "Gt": "Lt", "Le": "Ge", "Ge": "Le"}
+
+
+def norm_cmp(c):
+    """(op, left path, right path) with the lexicographically smaller path on the left"""
+    op, l, r = c
+    if l is not None and r is not None and r < l:
+        return (FLIP[op], r, l)
+    return c
+
+
+def _closure_single_cmp(it):
+    """the single comparison a predicate closure returns (possibly negated): (op, l, r) or None"""
+    g = it.body
+    if list(g.switches()):
+        return None
+    sl, info = g.slice_locals(0, through_calls=True)
+    cmps, other = slice_comparisons(it, info)
+    if len(cmps) != 1 or other:
+        return None
+    c = cmps[0]
+    nots = sum(1 for x in sl for d in g.defs.get(x, []) if d[0] == "assign" and d[3]["k"] == "unop" and d[3]["op"] == "Not")
+    d0 = g.defs.get(0, [])
+    if len(d0) == 1 and d0[0][0] == "assign" and d0[0][3]["k"] == "unop" and d0[0][3]["op"] == "Not":
+        nots += 1
+    if nots % 2 == 1:
+        c = (NEG[c[0]], c[1], c[2])
+    return c
+
+
+def forall_guards(prog, f, its, B):
+    """Ways in which `for every element of an iteration, a comparison of element parts holds` is established at block B of f:
+         it.all(|x| cmp) on the true edge;  it.any(|x| !cmp) / it.find(..) / it.position(..) on the false / None edge;
+         `it.all(..).then(|| ..)` is handled by the caller passing the block of the then() call;
+         for x in it { if !cmp { return / break-to-exit } } with B reached only after exhaustion;
+         a conjunction flag (conj_flag) tested on its true edge.
+       Returns [dict(it, cmp=(op, left path, right path) normalised, how)]"""
+    out = []
+    for it in its:
+        if it.parent is not f:
+            continue
+        if it.kind == "closure" and it.consumer in ("all", "any", "find", "position"):
+            c = _closure_single_cmp(it)
+            if c is None:
+                continue
+            for sb, s in an.switches_on_call_result(f, it.bb):
+                st = f.term(sb)
+                if it.consumer == "all":
+                    edge, holds = st["otherwise"], c
+                elif it.consumer == "any":
+                    edge, holds = an.edge_target(st, 0), (NEG[c[0]], c[1], c[2])
+                else:
+                    edge, holds = an.variant_target(f, sb, "None"), (NEG[c[0]], c[1], c[2])
+                if edge is not None and an.dominated_by_edge(f, sb, edge, B):
+                    out.append({"it": it, "cmp": norm_cmp(holds), "how": "%s(..) %s" % (it.consumer, "is true" if it.consumer == "all" else "finds nothing")})
+        elif it.kind == "loop":
+            if not an.dominated_by_edge(f, it.switch_bb, it.none_t, B) or B in it.loop_blocks:
+                continue
+            for sb, st in it.switches():
+                s = an.switch_subject(f, sb)
+                if s["kind"] != "value" or s["root"] is None:
+                    continue
+                d = f.single_def(s["root"])
+                c = None
+                if d and d[0] == "assign" and d[3]["k"] == "binop" and d[3]["op"] in CMP_OPS:
+                    c = (d[3]["op"], it.elem_path(d[3]["l"]), it.elem_path(d[3]["r"]))
+                elif d and d[0] == "call" and (d[2]["callee"].get("path") or "") in CMP_CALLS and len(d[2]["args"]) == 2:
+                    c = (CMP_CALLS[d[2]["callee"]["path"]], it.elem_path(d[2]["args"][0]), it.elem_path(d[2]["args"][1]))
+                elif d and d[0] == "assign" and d[3]["k"] == "unop" and d[3]["op"] == "Not":
+                    l2 = op_local(d[3]["operand"])
+                    d2 = f.single_def(f.copy_root(l2)) if l2 is not None else None
+                    if d2 and d2[0] == "assign" and d2[3]["k"] == "binop" and d2[3]["op"] in CMP_OPS:
+                        c = (NEG[d2[3]["op"]], it.elem_path(d2[3]["l"]), it.elem_path(d2[3]["r"]))
+                    elif d2 and d2[0] == "call" and (d2[2]["callee"].get("path") or "") in CMP_CALLS and len(d2[2]["args"]) == 2:
+                        c = (NEG[CMP_CALLS[d2[2]["callee"]["path"]]], it.elem_path(d2[2]["args"][0]), it.elem_path(d2[2]["args"][1]))
+                if c is None:
+                    continue
+                t_true, t_false = st["otherwise"], an.edge_target(st, 0)
+                for bad, holds in ((t_true, (NEG[c[0]], c[1], c[2])), (t_false, c)):
+                    reach = f.reachable_from(bad)
+                    if B not in reach and it.bb not in reach:
+                        out.append({"it": it, "cmp": norm_cmp(holds), "how": "the loop leaves the function as soon as an element violates it"})
+    # conjunction flags tested on their true edge
+    for sb, st in f.switches():
+        s = an.switch_subject(f, sb)
+        if s["kind"] != "value" or s["root"] is None or not an.dominated_by_edge(f, sb, st["otherwise"], B):
+            continue
+        cf = conj_flag(prog, f, its, s["root"])
+        if cf is not None and cf["form"] in ("fold", "loop") and cf["own"] and cf["init"] is True and len(cf["cmps"]) == 1 and not cf["calls"]:
+            out.append({"it": cf["it"], "cmp": norm_cmp(cf["cmps"][0]), "how": "conjunction flag (%s form) is true" % cf["form"]})
+    return out
